@@ -342,6 +342,8 @@ func (e *Exec) sameState(a, b *State) *Term {
 	arr(a.Sup, b.Sup)
 	arr(a.Acc, b.Acc)
 	arr(a.Meta, b.Meta)
+	arr(a.MetaB, b.MetaB)
+	arr(a.MetaD, b.MetaD)
 	gk := map[string]bool{}
 	for k := range a.Ghost {
 		gk[k] = true
